@@ -5,7 +5,7 @@ from . import stoglib as SL
 
 ID = "C11"
 CHECKER = "chk_add"
-THEOREMS = ['C11_ingest_rows_spec', 'C11_add_dataset_appends', 'C11_history_independent', 'C11_masters_untouched', 'C11_sq_row_is_conversion', 'C11_sq_rows_pointwise', 'C11_sq_row_formula', 'C11_nothing_outside_global_window', 'C11_stored_q_on_grid', 'C11_nothing_inside_both_windows_lost', 'C11_arrays_aligned', 'C11g_add_dataset_appends', 'C11g_history_independent', 'C11g_masters_untouched', 'C11g_sq_row_is_conversion', 'C11g_history_independent_binary64', 'C11e_reject_keeps_arrays', 'C11e_rejected_entries_leave_no_rows', 'C11e_rejected_entries_keep_masters', 'C11e_aligned_with_rejected_entries', 'C11k_keyword_call_is_effective_description', 'C11k_no_keywords', 'C11k_description_entry_wins', 'C11k_keyword_fills_missing_entry', 'C11k_keywords_alone', 'C11k_original_agrees_with_block', 'C11k_original_drops_keywords_refuted', 'C11r_three_columns', 'C11r_two_columns', 'C11r_named_columns', 'C11r_no_uncertainty_column', 'C11r_too_few_columns_rejected', 'C11r_layout_dy_junk_x_y', 'C11r_layout_junk_y_x', 'C11r_read_dataset_is_add_dataset', 'C11r_forwarded_keywords', 'C11r_two_columns_is_no_uncertainty']
+THEOREMS = ['C11_ingest_rows_spec', 'C11_add_dataset_appends', 'C11_history_independent', 'C11_masters_untouched', 'C11_sq_row_is_conversion', 'C11_sq_rows_pointwise', 'C11_sq_row_formula', 'C11_nothing_outside_global_window', 'C11_stored_q_on_grid', 'C11_nothing_inside_both_windows_lost', 'C11_arrays_aligned', 'C11g_add_dataset_appends', 'C11g_history_independent', 'C11g_masters_untouched', 'C11g_sq_row_is_conversion', 'C11g_history_independent_binary64', 'C11e_reject_keeps_arrays', 'C11e_rejected_entries_leave_no_rows', 'C11e_rejected_entries_keep_masters', 'C11e_aligned_with_rejected_entries', 'C11k_keyword_call_is_effective_description', 'C11k_no_keywords', 'C11k_description_entry_wins', 'C11k_keyword_fills_missing_entry', 'C11k_keywords_alone', 'C11k_original_agrees_with_block', 'C11k_original_drops_keywords_refuted', 'C11r_three_columns', 'C11r_two_columns', 'C11r_named_columns', 'C11r_no_uncertainty_column', 'C11r_too_few_columns_rejected', 'C11r_layout_dy_junk_x_y', 'C11r_layout_junk_y_x', 'C11r_read_dataset_is_add_dataset', 'C11r_forwarded_keywords', 'C11r_two_columns_is_no_uncertainty', 'C11a_read_all_is_add_dataset_in_order', 'C11a_no_files_rejected', 'C11a_stops_at_first_unreadable_file']
 RULE = ("sequences of 1-5 datasets of all four kinds with per-dataset Qmin/Qmax (on / off data points, outside the data), Y scale / offset, "
         "Q offsets (multiples of 0.01 and not), abscissae exact / jittered / half-way between 0.01 steps / unsorted, global Qmin/Qmax windows; "
         "every add_dataset step is one correspondence case from the implementation's own pre-state; non-trivial = the dataset stores at "
@@ -192,4 +192,28 @@ def oracle(pystog, case, res):
                 if not np.array_equal(np.array(alt[arr][j], float), np.array(fin[arr][j], float), equal_nan=True):
                     return "the same banks read from files by read_all_data store a different %s array (row %d) than add_dataset one by one" % (
                         {"recip": "reciprocal_individuals", "sq": "sq_individuals"}[arr], j)
+        # ... an empty file list is refused outright and nothing is stored
+        st_e = pystog.StoG(**SL.stog_kwargs(cfg))
+        try:
+            st_e.read_all_data()
+            return "read_all_data without any file returned instead of raising NoInputFilesException"
+        except Exception as ex:
+            if type(ex).__name__ != "NoInputFilesException":
+                return "read_all_data without any file raised %s (NoInputFilesException expected)" % type(ex).__name__
+        if len(SL.snap(st_e)["recip"][0]) != 0:
+            return "read_all_data without any file stored rows"
+        # ... with a file that has no y column among them: the call raises there, the banks read before it stay stored, the rest is not read
+        k_bad = len(case["datasets"]) // 2
+        try:
+            part = SL.read_all_route(pystog, cfg, case["datasets"], bad_at=k_bad)
+        except Exception as ex:
+            return "read_all_data with a one-column file among the banks: the harness route raised %s: %s" % (type(ex).__name__, str(ex)[:160])
+        if part["outcome"] != "RuntimeError":
+            return "read_all_data with a one-column file at position %d: %s (RuntimeError expected)" % (k_bad, part["outcome"])
+        before = snaps[k_bad]
+        for arr in ("recip", "sq"):
+            for j in range(3):
+                if not np.array_equal(np.array(part[arr][j], float), np.array(before[arr][j], float), equal_nan=True):
+                    return "after read_all_data stopped at a one-column file at position %d the %s array is not that of the %d banks read before it" % (
+                        k_bad, {"recip": "reciprocal_individuals", "sq": "sq_individuals"}[arr], k_bad)
     return None
